@@ -5,7 +5,7 @@ import os
 VERIF = os.path.dirname(os.path.dirname(os.path.abspath(__file__)))
 
 HOOK_COMMITS = ["b9d4bd0", "034d117", "c156e58"]
-FIX_COMMITS = ["d307ba7", "1245628", "e2789dc", "37d0178", "8d97c84", "106b808", "4ace02c", "398b1f9", "8e20502"]
+FIX_COMMITS = ["d307ba7", "1245628", "e2789dc", "37d0178", "8d97c84", "106b808", "4ace02c", "398b1f9", "8e20502", "758bf79", "bcb9d1c"]
 
 TRUST = ("TLC 1.8 and the TLA+ reference modules (cross-validated against gcc 12 / gfortran / git where an "
          "external tool exists); the Python harness only materialises TLC-generated cases, reformats traces and "
@@ -69,6 +69,17 @@ CHECKS["C03"] = dict(
          "is one number; -DNAME is checked to behave as #define NAME 1; the reference agrees with gcc -E on the sampled "
          "cases (disagreement above 3% aborts with exit 2).",
     design="3/C03")
+
+CHECKS["C05"] = dict(
+    technique="TLC fixpoint on the product of a TLA+ model of c_cleaner/one_space_line/c_file_source and a reference "
+              "translation-phase scanner (any text length); TLC-enumerated texts replayed through FileParser.parse_file "
+              "against the TLA+ reference scanner CScan",
+    text="The product automaton over character classes (VIEW hides the history) is explored to its fixpoint, so the "
+         "agreement of counted lines and directive/code category holds for texts of any length over the modelled "
+         "alphabet; every text up to the length bound and simulated token-level texts are parsed by the real FileParser "
+         "and compared with CScan on counted lines, directive extents, code runs, total_sloc and double counting; a "
+         "sample goes through cbi-cov.",
+    design="3/C05")
 
 PENDING_REASON = "check not built yet (build in progress; see DESIGN.md section 7)"
 
